@@ -20,6 +20,6 @@ print(expr); print(meta.get("mem_problems"), meta.get("rings"))
 n = meta["entities"]
 print([l for l in defs.splitlines() if l.startswith("Definition cut_") or l.startswith("Definition ring_") or l.startswith("Definition latches_") or l.startswith("Definition cells_")])
 ex = [f"match cell_step bp_0 cut_0 {n+2}%nat with Some (k, st, st') => Some (k, map (fun m => m) st') | None => None end",
-      "den_prog talg ds_0"]
+      "den_prog talg (b_univ bp_0) ds_0"]
 rc, outs, t = H.coq_eval(defs, ex, S.EXTRA, tag="dbgst")
 for o in outs: print((o or t[-2000:])[:5000])
